@@ -89,6 +89,9 @@ pub fn common(sc: &Scenario, h: &History, signed: &Signeds, out: &mut Outcome) {
         match &sc.ops[i] {
             Op::Observe if r.is_ok() => out.count("hist.observer_calls", 1),
             Op::ForkClone => out.count("hist.clone_handovers", 1),
+            Op::SetMintLegacy(false) if r.is_ok() => out.count("hist.old_mint_setter_calls", 1),
+            Op::SetMintLegacy(true) if matches!(r, crate::exec::Res::Err(_)) => out.count("fault.F4_old_mint_setter_refused", 1),
+            Op::RemoveCerts | Op::RemoveWithdrawals | Op::RemoveMint if r.is_ok() => out.count("hist.collection_removals", 1),
             Op::HandOverAgain(_) if h.results.get(i).map_or(false, |r| r.is_ok()) => out.count("fault.F6_unchanged_collection_builders_handed_over_again", 1),
             Op::Out(o) if o.form != 0 && r.is_ok() => out.count("hist.outputs_decoded_from_bytes", 1),
             _ => {}
